@@ -12,10 +12,14 @@ import json
 import os
 import random
 
+import datetime as _dt
+
 import common
 import tlc
 
 FUNCS = ["find_eq", "find_lt", "find_le", "find_gt", "find_ge"]
+
+_T0 = _dt.datetime(2021, 3, 1, tzinfo=_dt.timezone.utc)
 
 
 def _none(v):
@@ -49,7 +53,12 @@ def main():
     embeddings = [("int", lambda v: v, lambda x: x), ("float", lambda v: v * 0.1 - 0.35, lambda x: x * 0.1 - 0.35),
                   ("neg", lambda v: float(v - 20) * 1e300, lambda x: float(x - 20) * 1e300),
                   ("int-list-float-probe", lambda v: v, lambda x: float(x) if x % 2 else x - 0.5),
-                  ("float-list-int-probe", lambda v: float(v), lambda x: x)]
+                  ("float-list-int-probe", lambda v: float(v), lambda x: x),
+                  # large values at small distances (epoch seconds a millisecond apart; datetimes a microsecond apart):
+                  # a tolerant comparison would merge neighbours
+                  ("epoch-ms", lambda v: 1.6e9 + v * 0.001, lambda x: 1.6e9 + x * 0.001),
+                  ("datetime-us", lambda v: _T0 + _dt.timedelta(microseconds=v), lambda x: _T0 + _dt.timedelta(microseconds=x)),
+                  ("str", lambda v: "k%02d" % v, lambda x: "k%02d" % x)]
     for c in cases:
         l = c["l"] if isinstance(c["l"], list) else []
         for name, emb, pemb in embeddings:
